@@ -301,7 +301,11 @@ func (o *Store) visitNodes(t *Collection, n *nodeLoc, target []byte,
 		return true, nil
 	}
 	if saveMem {
-		defer nNode.Evict()
+		defer func(nNode *node) {
+			if i := nNode.Evict(); i != nil {
+				o.ItemDecRef(t, i)
+			}
+		}(nNode)
 	}
 	nItemLoc := &nNode.item
 	nItem, err := nItemLoc.read(t, false)
